@@ -67,6 +67,8 @@ def diffs_of(log):
     mod = log["module"]
     for k, c in enumerate(log["cases"]):
         for ps in ("pass1", "pass2"):
+            if ps not in c:
+                continue
             a, b = c[ps]["inproc"], c[ps]["subproc"]
             for f in FIELDS:
                 if a[f] != b[f]:
@@ -74,6 +76,19 @@ def diffs_of(log):
                                 f"subprocess {f} = {str(b[f])[:300]}", {"test": c["code"], "pass": ps, "field": f,
                                                                        "inproc": a[f], "subproc": b[f]}))
                     break
+    lim = log.get("limits")
+    if lim:
+        wrong = [c for c in lim["child"] if c != lim["parent"]]
+        if wrong:
+            res.append((f"limits:child-differs:{mod}", f"executor built with (maximum, per statement) = {lim['parent']}; the "
+                        f"executor in the child process has {wrong[0]}: test cases get a different budget in the subprocess",
+                        {"parent": lim["parent"], "child": lim["child"]}))
+        if not lim["child"]:
+            res.append((f"limits:no-child-executor:{mod}", "no TestCaseExecutor was built in a child process", {}))
+        exp = [min(lim["parent"][0], lim["parent"][1] * n) for n in lim["sizes"]]
+        if lim["budgets"] != exp:
+            res.append((f"limits:parent-budget:{mod}", f"_calculate_timeout gives {lim['budgets']} for sizes {lim['sizes']}, "
+                        f"min(maximum, per*size) is {exp}", {"limits": lim}))
     ba = log.get("batch_all")
     if ba:
         if len(ba["subproc"]) != len(ba["inproc"]):
@@ -115,6 +130,13 @@ def batch_to_case(b):
             observed.append([code(sub)])
     batch_ok = all(k.startswith("fine") for k in b["pattern"])
     return tests, batch_ok, singles, observed
+
+
+def c_lcase(lim):
+    pr = lambda x: cpair(cZ(x[0]), cZ(x[1]))  # noqa: E731
+    return "{| C31.l_parent := %s; C31.l_child := %s; C31.l_sizes := %s; C31.l_budgets := %s |}" % (
+        pr(lim["parent"]), clist(pr(c) for c in lim["child"]), clist(cZ(n) for n in lim["sizes"]),
+        clist(cZ(b) for b in lim["budgets"]))
 
 
 def c_batch(tests, batch_ok, singles, observed):
@@ -219,12 +241,18 @@ def run(ctx: vlib.Ctx):
     n_tests, length = (4, 4) if ctx.quick else (14, 6)
     jobs = []
     for j in corpus["diff_jobs"]:
-        jobs.append(dict(j, max_timeout=60))
+        jobs.append(dict(j, max_timeout=60, per_stmt=20))
     for m in MODULES:
         for rep in range(1 if ctx.quick else 3):
-            jobs.append({"module": m, "seed": ctx.rng.randrange(10 ** 6), "n": n_tests, "len": length, "max_timeout": 60})
+            jobs.append({"module": m, "seed": ctx.rng.randrange(10 ** 6), "n": n_tests, "len": length, "max_timeout": 60,
+                         "per_stmt": 20})
     pats = [list(p) for p in corpus["patterns"]] + gen_patterns(ctx.rng, 2 if ctx.quick else 12)
     jobs.append({"module": "crash", "patterns": pats, "max_timeout": 60})
+    # unequal limits and a slow test case that is well inside its budget min(60, 5*6) = 30 s: a child that
+    # gets other limits than the parent shows up as a limits difference and as a timeout-flag difference
+    jobs.append({"module": "slow", "max_timeout": 60, "per_stmt": 5, "nap": 6})
+    if not ctx.quick:
+        jobs.append({"module": "slow", "max_timeout": 45, "per_stmt": 7, "nap": 8})
     if not ctx.quick:
         jobs.append({"module": "crash", "patterns": [["fine", "hang"], ["hang"], ["fine2", "hang", "fine"]], "max_timeout": 10})
     wd = 900 if ctx.quick else 2400
@@ -275,6 +303,7 @@ def run(ctx: vlib.Ctx):
 
     # --- differential and orchestration ------------------------------------------------------------
     bcases, bmeta, n_diff, n_cases = [], [], 0, 0
+    lcases: list = []
     for i, (j, fut) in enumerate(zip(jobs, futs)):
         log, note = fut.result()
         if log is None:
@@ -295,6 +324,9 @@ def run(ctx: vlib.Ctx):
         for sig, msg, det in ds[:4]:
             n_diff += 1
             ctx.fail(sig, msg, {"kind": "diff", "job": j, "detail": det})
+        if log.get("limits"):
+            lcases.append(c_lcase(log["limits"]))
+            ctx.count("limits:jobs")
         for c in log["cases"]:
             n_cases += 1
             a = c["pass1"]["inproc"]
@@ -303,7 +335,7 @@ def run(ctx: vlib.Ctx):
             ctx.count("diff:exception:" + ("yes" if a["exceptions"] else "no"))
             ctx.count("diff:assertions:" + ("yes" if c["n_assertions"] else "no"))
             ctx.count("diff:falsified:" + ("yes" if c.get("falsified") else "no"))
-            if c["pass2"]["inproc"]["verification"]["failed"]:
+            if "pass2" in c and c["pass2"]["inproc"]["verification"]["failed"]:
                 ctx.count("diff:verification-failed-nonempty")
         if log["cases"]:
             ctx.sample({"module": j["module"], "test": log["cases"][0]["code"], "inproc": log["cases"][0]["pass1"]["inproc"]}, limit=3)
@@ -329,7 +361,11 @@ def run(ctx: vlib.Ctx):
         else:
             ctx.fail("batch:result-differs", f"execute_multiple on {b['pattern']}: a surviving test's result differs from its "
                      "in-process result", {"kind": "batch", "pattern": b["pattern"]})
-    ctx.leg("K2a", ok=(bad_b == []), batches=len(bcases))
+    bad_l = ctx.run_cases("C31_limits", "From Verif Require Import Models.C31.", "C31.lcase", "C31.check_lcase", lcases)
+    if bad_l and n_diff == 0:
+        ctx.broken("correspondence:C31-limits", "the limits/budget model does not accept the observed parent/child limits",
+                   {"cases": lcases})
+    ctx.leg("K2a", ok=(bad_b == []), batches=len(bcases), limits_ok=(bad_l == []), limit_cases=len(lcases))
     ctx.leg("S", differences=n_diff, test_cases=n_cases)
     ctx.cov["rule"] = ("differential: TestFactory-made test cases (length <= %d) for 4 small deterministic modules, two passes "
                        "(assertion trace, assertion verification with one falsified assertion), non-trivial = the test covers at "
